@@ -6,6 +6,7 @@ import (
 	"fmt"
 	"io"
 	"net"
+	"sort"
 	"strings"
 	"sync"
 	"time"
@@ -304,6 +305,39 @@ func worldTunnel(w *World) {
 		return
 	}
 	w.Sleep(time.Duration(r.Range(0, 1500)) * time.Millisecond)
+
+	// fault batch: connection resets, blackholes and partitions between the clients and the server while traffic
+	// flows. Completeness and timing oracles are off in this batch; what every endpoint reads must still be a prefix
+	// of what the matching endpoint wrote, nothing may be cross-wired, and the run must not crash.
+	if w.In.Faults {
+		fr := newSubRand(w, "tunnel-faults")
+		nf := w.KnobPick("nfaults", 0, 1, 2, 4)
+		for i := 0; i < nf; i++ {
+			at := time.Duration(fr.Range(0, 6000)) * time.Millisecond
+			kind := fr.Intn(3)
+			dur := time.Duration(fr.Range(200, 15000)) * time.Millisecond
+			pick := fr.Intn(1 << 20)
+			w.Net.At(at, fmt.Sprintf("tunnel-fault-%d", i), func() {
+				ids := w.Net.PairsMatching(func(link string, id int) bool { return strings.Contains(link, ">10.0.0.1:7000") })
+				sort.Ints(ids)
+				switch {
+				case kind == 0 && len(ids) > 0:
+					w.Net.ResetPair(ids[pick%len(ids)])
+				case kind == 1 && len(ids) > 0:
+					id := ids[pick%len(ids)]
+					w.Net.BlackholePair(id, true)
+					w.Net.At(dur, "tunnel-heal", func() { w.Net.BlackholePair(id, false) })
+				default:
+					nodes := w.Net.NodesByPrefix("frpc")
+					if len(nodes) > 0 {
+						nd := nodes[pick%len(nodes)]
+						w.Net.Partition(nd, true)
+						w.Net.At(dur, "tunnel-heal", func() { w.Net.Partition(nd, false) })
+					}
+				}
+			})
+		}
+	}
 
 	// connections
 	cid := 0
@@ -745,6 +779,18 @@ func (tw *tunnelWorld) mismatch(c *tConn, side string, expect []byte, got int, c
 					"conn%d (%s): %s read the banner of %s at offset %d", c.id, c.p.name, side, p.name, got+d)
 				return
 			}
+		}
+	}
+	// Fault batch: while a client is cut off its routes are gone; a user that connects then is answered by frps
+	// itself (TLS alert for an unknown server name, failed CONNECT, not-found page). Those bytes are the server's
+	// refusal, not tunnelled data: no backend ever accepted this connection.
+	if tw.w.In.Faults && side == "user" && got == 0 {
+		tw.tmu.Lock()
+		bridged := c.bAccepted
+		tw.tmu.Unlock()
+		if !bridged {
+			tw.w.Probe("tunnel.refused_by_server_during_fault")
+			return
 		}
 	}
 	kind := "altered"
